@@ -307,6 +307,8 @@ def scenario_features(scenario, schedule):
         f.add('split deliveries')
     if scenario.get('intruders'):
         f.add('admission with connection attempts that are turned away')
+    if scenario.get('linger'):
+        f.add('clients that keep the connection open after End of session')
     return f
 
 
@@ -375,7 +377,7 @@ def reduce_violation(check_session, v, budget_s=25.0):
             if attempt(sc2, sched, ex2):
                 changed = True
                 break
-    for key, val in (('intruders', []), ('fmt', {}), ('split', None), ('arrival', [0, 1, 2, 3]), ('teams', ['a', 'b'])):
+    for key, val in (('intruders', []), ('linger', []), ('fmt', {}), ('split', None), ('arrival', [0, 1, 2, 3]), ('teams', ['a', 'b'])):
         sc, sched, extra = cur()
         if key == 'arrival' and sc.get('intruders'):
             continue            # the intruders' prerequisites refer to the arrival order
